@@ -23,11 +23,51 @@ type Sources struct {
 	Globals map[*types.Var]bool
 	Free    map[*ssa.FreeVar]bool
 	Opaque  int // values that could not be traced (dynamic calls, ...)
+	// KeyFields: fields whose value only selects (index of a slice, key of a
+	// map lookup, argument of a declared resolver) rather than flowing in.
+	KeyFields map[*types.Var]bool
+	KeyParams map[*ssa.Parameter]bool
+	Resolvers map[*types.Func]bool // callees whose arguments are key-uses
+	NoInline  map[*types.Func]bool // callees never traced into (their result is opaque)
+	keyMode   bool
 }
 
 func newSources() *Sources {
 	return &Sources{Params: map[*ssa.Parameter]bool{}, Fields: map[*types.Var]bool{}, Calls: map[*types.Func]bool{},
-		Globals: map[*types.Var]bool{}, Free: map[*ssa.FreeVar]bool{}}
+		Globals: map[*types.Var]bool{}, Free: map[*ssa.FreeVar]bool{}, KeyFields: map[*types.Var]bool{}, KeyParams: map[*ssa.Parameter]bool{}}
+}
+
+func (s *Sources) addField(f *types.Var) {
+	if f == nil {
+		return
+	}
+	if s.keyMode {
+		s.KeyFields[f] = true
+	} else {
+		s.Fields[f] = true
+	}
+}
+
+// TraceWithResolvers is Trace with a set of resolver callees (name → object
+// lookups): fields reaching the value only through a resolver argument, a map
+// key or a slice index are reported in KeyFields instead of Fields.
+func TraceWithResolvers(v ssa.Value, depth int, resolvers, noInline map[*types.Func]bool) *Sources {
+	s := newSources()
+	s.Resolvers = resolvers
+	s.NoInline = noInline
+	traceInto(s, v, depth, map[ssa.Value]bool{})
+	return s
+}
+
+// asKey traces v in key mode (with its own visited set).
+func (s *Sources) asKey(v ssa.Value, depth int) {
+	if s.Resolvers == nil {
+		return
+	}
+	old := s.keyMode
+	s.keyMode = true
+	traceInto(s, v, depth, map[ssa.Value]bool{})
+	s.keyMode = old
 }
 
 // CallNames lists the callee names (pkg.Name or Recv.Name), sorted.
@@ -107,7 +147,11 @@ func traceInto(s *Sources, v ssa.Value, depth int, seen map[ssa.Value]bool) {
 	seen[v] = true
 	switch x := v.(type) {
 	case *ssa.Parameter:
-		s.Params[x] = true
+		if s.keyMode {
+			s.KeyParams[x] = true
+		} else {
+			s.Params[x] = true
+		}
 	case *ssa.FreeVar:
 		s.Free[x] = true
 	case *ssa.Const:
@@ -125,9 +169,7 @@ func traceInto(s *Sources, v ssa.Value, depth int, seen map[ssa.Value]bool) {
 		if x.Op == token.MUL {
 			switch a := x.X.(type) {
 			case *ssa.FieldAddr:
-				if f := FieldOfAddr(a); f != nil {
-					s.Fields[f] = true
-				}
+				s.addField(FieldOfAddr(a))
 				traceInto(s, a.X, depth, seen)
 				// a field of a locally built struct: also the values stored into that field
 				if al, ok := a.X.(*ssa.Alloc); ok {
@@ -141,24 +183,32 @@ func traceInto(s *Sources, v ssa.Value, depth int, seen map[ssa.Value]bool) {
 		}
 		traceInto(s, x.X, depth, seen)
 	case *ssa.Field:
-		if f := FieldOfValue(x); f != nil {
-			s.Fields[f] = true
-		}
+		s.addField(FieldOfValue(x))
 		traceInto(s, x.X, depth, seen)
 	case *ssa.FieldAddr:
-		if f := FieldOfAddr(x); f != nil {
-			s.Fields[f] = true
-		}
+		s.addField(FieldOfAddr(x))
 		traceInto(s, x.X, depth, seen)
 	case *ssa.IndexAddr:
 		traceInto(s, x.X, depth, seen)
-		traceInto(s, x.Index, depth, seen)
+		if s.Resolvers != nil {
+			s.asKey(x.Index, depth)
+		} else {
+			traceInto(s, x.Index, depth, seen)
+		}
 	case *ssa.Index:
 		traceInto(s, x.X, depth, seen)
-		traceInto(s, x.Index, depth, seen)
+		if s.Resolvers != nil {
+			s.asKey(x.Index, depth)
+		} else {
+			traceInto(s, x.Index, depth, seen)
+		}
 	case *ssa.Lookup:
 		traceInto(s, x.X, depth, seen)
-		traceInto(s, x.Index, depth, seen)
+		if s.Resolvers != nil {
+			s.asKey(x.Index, depth)
+		} else {
+			traceInto(s, x.Index, depth, seen)
+		}
 	case *ssa.Extract:
 		if c, ok := x.Tuple.(*ssa.Call); ok {
 			traceCall(s, c, x.Index, depth, seen)
@@ -182,6 +232,9 @@ func traceInto(s *Sources, v ssa.Value, depth int, seen map[ssa.Value]bool) {
 		traceInto(s, x.X, depth, seen)
 		traceInto(s, x.Low, depth, seen)
 		traceInto(s, x.High, depth, seen)
+		if _, isAlloc := x.X.(*ssa.Alloc); isAlloc {
+			traceFilledBy(s, x, depth, seen) // make([]T, const): filled by calls receiving the slice
+		}
 	case *ssa.SliceToArrayPointer:
 		traceInto(s, x.X, depth, seen)
 	case *ssa.MakeClosure:
@@ -192,7 +245,9 @@ func traceInto(s *Sources, v ssa.Value, depth int, seen map[ssa.Value]bool) {
 		traceAlloc(s, x, depth, seen)
 	case *ssa.Call:
 		traceCall(s, x, -1, depth, seen)
-	case *ssa.MakeSlice, *ssa.MakeMap, *ssa.MakeChan:
+	case *ssa.MakeSlice:
+		traceFilledBy(s, x, depth, seen)
+	case *ssa.MakeMap, *ssa.MakeChan:
 	case *ssa.Range, *ssa.Next:
 		for _, op := range x.(ssa.Instruction).Operands(nil) {
 			if *op != nil {
@@ -261,10 +316,29 @@ func traceCall(s *Sources, c *ssa.Call, resultIdx int, depth int, seen map[ssa.V
 	if callee != nil {
 		s.Calls[callee] = true
 	}
+	if callee != nil && s.Resolvers != nil && (s.Resolvers[callee] || s.Resolvers[callee.Origin()]) {
+		if cc.IsInvoke() {
+			traceInto(s, cc.Value, depth, seen)
+		}
+		for i, a := range cc.Args {
+			if i == 0 && !cc.IsInvoke() && cc.Signature().Recv() != nil {
+				traceInto(s, a, depth, seen) // the receiver (the graph) is a value
+				continue
+			}
+			s.asKey(a, depth)
+		}
+		return
+	}
+	if callee != nil && s.NoInline != nil && (s.NoInline[callee] || s.NoInline[callee.Origin()]) {
+		return
+	}
 	fn := StaticFn(cc)
 	if fn != nil && fn.Blocks != nil && IsRepo(fn) && depth > 0 {
 		// trace the callee's returned values to its parameters
 		inner := newSources()
+		inner.Resolvers = s.Resolvers
+		inner.NoInline = s.NoInline
+		inner.keyMode = s.keyMode
 		innerSeen := map[ssa.Value]bool{}
 		Instrs(fn, func(in ssa.Instruction) {
 			if ret, ok := in.(*ssa.Return); ok {
@@ -279,6 +353,9 @@ func traceCall(s *Sources, c *ssa.Call, resultIdx int, depth int, seen map[ssa.V
 		for f := range inner.Fields {
 			s.Fields[f] = true
 		}
+		for f := range inner.KeyFields {
+			s.KeyFields[f] = true
+		}
 		for cl := range inner.Calls {
 			s.Calls[cl] = true
 		}
@@ -291,6 +368,17 @@ func traceCall(s *Sources, c *ssa.Call, resultIdx int, depth int, seen map[ssa.V
 			for i, fp := range fn.Params {
 				if fp == prm && i < len(cc.Args) {
 					traceInto(s, cc.Args[i], depth, seen)
+				}
+			}
+		}
+		for prm := range inner.KeyParams {
+			for i, fp := range fn.Params {
+				if fp == prm && i < len(cc.Args) {
+					if s.Resolvers != nil {
+						s.asKey(cc.Args[i], depth)
+					} else {
+						traceInto(s, cc.Args[i], depth, seen)
+					}
 				}
 			}
 		}
@@ -592,4 +680,33 @@ func cellParam(a *ssa.Alloc) *ssa.Parameter {
 		return prm
 	}
 	return nil
+}
+
+// traceFilledBy: a fresh buffer's content is whatever the calls that receive it
+// as destination write into it (PutUint64(buf, v), copy(buf, src)).
+func traceFilledBy(s *Sources, buf ssa.Value, depth int, seen map[ssa.Value]bool) {
+	refs := buf.Referrers()
+	if refs == nil {
+		return
+	}
+	for _, r := range *refs {
+		c, ok := r.(*ssa.Call)
+		if !ok {
+			continue
+		}
+		isDst := false
+		for i, a := range c.Call.Args {
+			if a == buf && i <= 1 {
+				isDst = true
+			}
+		}
+		if !isDst {
+			continue
+		}
+		for _, a := range c.Call.Args {
+			if a != buf {
+				traceInto(s, a, depth, seen)
+			}
+		}
+	}
 }
